@@ -14,14 +14,17 @@ CONSTANTS
     MaxDeliver,     \* number of submissions per behaviour
     MaxInFlight,    \* events inside the pipeline at the same time (concurrent callers)
     ForgeBudget,    \* submissions per behaviour that are not honest operations
-    Classes         \* forgery classes in use
+    Classes,        \* forgery classes in use
+    FineIngest,     \* TRUE: ingest_operation one await point per action, several workers
+    Batch           \* TRUE: export shape [Submit^k Ingest^k Prune^k]* (queue k calls, run them, prune)
 
 VARIABLES
     world,          \* the set of <<a, l, s>> where the honest operation carries the prune flag
     n, forged,      \* submissions so far / forged submissions so far
+    phase,          \* Batch mode: "fill" | "ingest" | "prune"
     hist            \* the behaviour, as the harness replays it
 
-mcvars == <<vars, world, n, forged, hist>>
+mcvars == <<vars, world, n, forged, phase, hist>>
 
 ---------------------------------------------------------------------------
 (* The honest world: one operation per (author, log, seq) - no equivocation *)
@@ -82,16 +85,20 @@ StoreIds(S) == {e.id : e \in S}
 MCInit ==
     /\ Init
     /\ world \in SUBSET PrunePositions
-    /\ n = 0 /\ forged = 0 /\ hist = <<>>
+    /\ n = 0 /\ forged = 0 /\ hist = <<>> /\ phase = "fill"
 
 DoSubmit(it, k, b) ==
     /\ Submit(it)
     /\ hist' = Append(hist, [act |-> "Submit", cls |-> k, base |-> b.id, item |-> it])
     /\ n' = n + 1
 
+InCalls == Cardinality({w \in Worker : ing[w].pc # "idle"})
+
 MCSubmit ==
     /\ n < MaxDeliver
-    /\ Len(inQ) + Len(pruneQ) < MaxInFlight
+    /\ Len(inQ) + Len(pruneQ) + InCalls < MaxInFlight
+    /\ Batch => phase = "fill"
+    /\ phase' = phase
     /\ \E a \in Author, l \in Log, s \in 0..MaxSeq :
           LET b == H(a, l, s)
           IN \/ DoSubmit(b, "Honest", b) /\ forged' = forged
@@ -101,10 +108,23 @@ MCSubmit ==
     /\ UNCHANGED world
 
 MCIngest ==
+    /\ ~FineIngest
     /\ IngestStep
     /\ hist' = Append(hist, [act |-> "Ingest", res |-> pruneQ'[Len(pruneQ')].res,
                              store |-> StoreIds(store')])
+    /\ Batch => phase # "prune"
+    /\ phase' = IF Batch THEN "ingest" ELSE phase
     /\ UNCHANGED <<world, n, forged>>
+
+\* one await point of one concurrent ingest_operation call; the call's return is what hist records
+MCIngestCall ==
+    /\ FineIngest
+    /\ \E w \in Worker : IngestCall(w)
+    /\ hist' = IF Len(pruneQ') = Len(pruneQ) + 1
+               THEN Append(hist, [act |-> "Ingest", res |-> pruneQ'[Len(pruneQ')].res,
+                                  store |-> StoreIds(store')])
+               ELSE hist
+    /\ UNCHANGED <<world, n, forged, phase>>
 
 MCPrune ==
     /\ LogPruneStep
@@ -112,12 +132,14 @@ MCPrune ==
        IN hist' = Append(hist, [act |-> "Prune", active |-> PruneActive(ev),
                                 a |-> ev.item.a, l |-> ev.item.l, until |-> ev.item.seq,
                                 pruned |-> last'.pruned, store |-> StoreIds(store')])
+    /\ Batch => inQ = <<>>
+    /\ phase' = IF ~Batch THEN phase ELSE IF Len(pruneQ) = 1 THEN "fill" ELSE "prune"
     /\ UNCHANGED <<world, n, forged>>
 
-MCNext == MCSubmit \/ MCIngest \/ MCPrune
+MCNext == MCSubmit \/ MCIngest \/ MCIngestCall \/ MCPrune
 MCSpec == MCInit /\ [][MCNext]_mcvars
 
-Done == n = MaxDeliver /\ inQ = <<>> /\ pruneQ = <<>>
+Done == n = MaxDeliver /\ inQ = <<>> /\ pruneQ = <<>> /\ InCalls = 0
 
 (* VIEW for the exhaustive configs.  Hidden: `hist` (export only), `last` (no action reads it)  *)
 (* and the class tag of items that fail validate_operation - IngestOutcome, PruneActive and    *)
@@ -129,7 +151,9 @@ ViewItem(it) ==
 NoHistView ==
     <<store, [i \in DOMAIN inQ |-> ViewItem(inQ[i])],
       [i \in DOMAIN pruneQ |-> [item |-> ViewItem(pruneQ[i].item), res |-> pruneQ[i].res]],
-      applied, ingested, world, n, forged>>
+      applied, ingested, world, n, forged, phase,
+      [w \in Worker |-> [pc |-> ing[w].pc, item |-> ViewItem(ing[w].item), tip |-> ing[w].tip]],
+      permQ, holder>>
 
 Export ==
     Done => PrintT(<<"REPLAY", ToJson([kind |-> "oplog", world |-> world, steps |-> hist])>>)
@@ -152,6 +176,9 @@ Reach_LatePruneRejected ==
     ~(pruneQ # <<>> /\ Head(pruneQ).item.wf /\ Head(pruneQ).item.prune /\ Head(pruneQ).res = "Rejected")
 Reach_AlreadyExists == ~(pruneQ # <<>> /\ Head(pruneQ).res = "AlreadyExists")
 Reach_TwoInFlight == ~(Len(inQ) + Len(pruneQ) >= 2)
+Reach_TwoCallsSameLogWaiting ==
+    ~(\E v, w \in Worker : v # w /\ ing[v].pc = "wait" /\ ing[w].pc = "wait"
+                              /\ ing[v].item.a = ing[w].item.a /\ ing[v].item.l = ing[w].item.l)
 Reach_GapAfterPruneJump == ~(\E e \in store : e.prune /\ e.seq > 0 /\ ~\E p \in store : SameLog(p, e) /\ p.seq = e.seq - 1)
 
 ---------------------------------------------------------------------------
@@ -160,6 +187,7 @@ AllPositions == Author \X Log \X (0..MaxSeq)
 FirstAuthorPositions == {p \in AllPositions : p[1] = "a1"}
 LastOfFirstAuthor == {p \in AllPositions : p[1] = "a1" /\ p[3] = MaxSeq}
 EvenPositions == {p \in AllPositions : p[3] > 0 /\ p[3] % 2 = 0}
+NonZeroPositions == {p \in AllPositions : p[3] > 0}
 NoPositions == {}
 AllClasses == {"BadSig", "BadVersion", "PayloadInfoInconsistent", "BacklinkSeqInconsistent",
                "BodyMismatch", "ClaimOtherAuthor", "PruneFlipped", "SeqChanged",
